@@ -496,6 +496,37 @@ func TestSpliceSweep(t *testing.T) {
 	vp.ClassN("splicesweep:inside-a-listed-network", inside)
 }
 
+// TestHextetSweep: every value of the leading hextet of an IPv6 address,
+// combined with a few second hextets and tails: a network that the code knows
+// but the documentation does not list (or the reverse) shows wherever it is,
+// not only next to the documented ones.
+func TestHextetSweep(t *testing.T) {
+	var evals, inside int64
+	seconds := []uint16{0x0000, 0x0001, 0x0fff, 0x1000, 0x8000, 0xffff}
+	tails := [][12]byte{{}, {11: 1}, {0xff, 0xff, 0xff, 0xff, 0xff, 0xff, 0xff, 0xff, 0xff, 0xff, 0xff, 0xff}, {0: 0x12, 5: 0x34, 11: 0x56}}
+	for h := 0; h < 1<<16; h++ {
+		for _, x := range seconds {
+			for _, tail := range tails {
+				var b [16]byte
+				b[0], b[1], b[2], b[3] = byte(h>>8), byte(h), byte(x>>8), byte(x)
+				copy(b[4:], tail[:])
+				evals++
+				in, err := checkAddr(netip.AddrFrom16(b))
+				if err != nil {
+					vp.Fail(t, "c06.addr", Case{Addr: netip.AddrFrom16(b)}, err)
+					return
+				}
+				if in {
+					inside++
+				}
+			}
+		}
+	}
+	vp.EvalN("c06.hextetsweep", evals)
+	vp.ClassN("hextetsweep:addresses", evals)
+	vp.ClassN("hextetsweep:inside-a-listed-network", inside)
+}
+
 // TestByteSweep: for every documented network and every byte position, all
 // 256 values of that byte with the other bytes taken from the network base
 // (thorough: additionally all 65536 values of every pair of adjacent bytes).
